@@ -157,6 +157,8 @@ CoreUnsat(core, h) == ~Witness(tt, CoreSet(CoreNames(core)), Base, h, dom)
 CoreIrreducible(core, hm) ==
   \A i \in DOMAIN core :
      SatStatus(tt, CoreSet(CoreNames(core) \ {core[i]}), Base, hm[i], dom) # "unsat"
+RedundantMembers(core, hm) ==
+  { core[i] : i \in { j \in DOMAIN core : SatStatus(tt, CoreSet(CoreNames(core) \ {core[j]}), Base, hm[j], dom) = "unsat" } }
 \* full-core mode: the printed formulas fs are current assertions, unsat on their own
 \* fx[i] : for the i-th printed formula, one record [a, x, h] per current assertion a, where x is the
 \* term (xor fs[i] a) and h candidate models of x.  The printed formula counts as a current
